@@ -151,6 +151,7 @@ pub fn property() -> Property {
         id: "C05",
         rule: "File texts: grammar-generated programs (INPUT/STOP allowed) rendered with random spacing/case and mutated at document level (blank / unnumbered / bare-number lines, duplicates of an earlier number that are identical / different / untokenizable / multi-byte / truncated, untokenizable tails, u64-boundary line numbers, garbage lines, non-ASCII tails, truncation, swaps, CRLF variants); character-level mutations of the repo's sample programs; documents of random atom lines over few colliding numbers; raw Unicode and printable text. Oracle: analyze returns; one token list per file line; every message maps to Some((line, range)) with line == the line it names, range inside the line and on char boundaries; per-line token ranges ordered, disjoint, in bounds, on char boundaries. Non-trivial: >= 2 numbered lines and >= 1 diagnostic carrying a program location; distinct by text.",
         assumptions: vec!["native-stack exhaustion by deeply nested input is decided by the child-process battery of C01 (shared), not in-process"],
+        fuzz: Some(FuzzSpec { target: "c05_analyze", runs: 400_000, max_len: 2048, verdict: crate::fuzz::c05_verdict }),
         families,
         prelude: None,
         epilogue: None,
